@@ -23,4 +23,7 @@ def jobs(tier):
                      unwind=7, unwindset=["strcmp.0:48"], timeout=600, encodes=["bus_connection_be_monitor", "bcd_add_monitor_rules", "bcd_drop_monitor_rules", "bus_connection_drop_pending_replies"],
                      stubs=["bus_service_remove_owner = ghost, may fail at call k", "matchmakers = ghost counters"],
                      bounds=f"0..2 owned names, ordinary rules present or not, {p} pending replies, rule addition / name release may fail", shape=f"become monitor, {p} pending replies"))
+    J.append(Job(name="error_reply.captured", group="C18.capture", harness="harness/C09_pending.c", defines={"P": 0, "OP": 12}, real=["dbus/dbus-list.c"], env=ENV, checks="assert",
+                 unwind=7, unwindset=["strcmp.0:48"], timeout=300, encodes=["bus_transaction_send_error_reply", "bus_transaction_send_from_driver", "bus_transaction_capture", "bus_transaction_send"],
+                 stubs=["monitors' matchmaker selects the monitor", "libdbus send = ghost log"], bounds="one monitor; the failed call's sender connected or already gone (symbolic)", shape="error reply with a monitor attached"))
     return J
